@@ -743,3 +743,42 @@ def check_real(ctx, res, items, owns, classify, combos=COMBOS, frameworks=("twis
             {"framework": d.fw.split()[0], "transport": d.fw, "script": d.script, "event_index": d.index,
              "verdict": d.expected, "actual": d.actual}))
     return {"keys": sorted(by_key), "breaks": len(breaks)}
+
+
+# ----------------------------------------------------------------------------- direct expectations (property text, no Spec)
+
+def check_direct(ctx, res, cases, frameworks=("twisted", "asyncio")):
+    """cases: dicts {key, script, what, event (index or None), expect: [token prefixes that must be observed at that
+    event], forbid: [token prefixes that must not], all_done: bool (every future handed out must be completed by the end
+    of the script)}. Judges the implementation's observations against what the property text says for behaviours the
+    Lean Spec mirrors from the code (so that Spec-vs-implementation cannot see them). -> keys violated"""
+    hit = []
+    for fw in frameworks:
+        obs = run_impl(fw, [c["script"] for c in cases])
+        for c, o in zip(cases, obs):
+            res.evaluations += len(c["script"])
+            bad = []
+            if c.get("event") is not None:
+                toks = tokens(o[c["event"]])
+                bad += ["missing " + e for e in c.get("expect", []) if not any(t.startswith(e) for t in toks)]
+                bad += ["unexpected " + t for t in toks for f in c.get("forbid", []) if t.startswith(f)]
+            if c.get("all_done"):
+                rets = [t[4:] for l in o for t in tokens(l) if t.startswith("ret:") and t != "ret:none"]
+                done = [t[5:].split("=")[0] for l in o for t in tokens(l) if t.startswith("done:")]
+                bad += ["future %s never completed" % f for f in rets if f not in done]
+            if bad and c["key"] not in hit:
+                hit.append(c["key"])
+                res.violations.append(core.Violation(
+                    c["key"], f"{fw}: {c['what']}: {'; '.join(bad)}; script: {' '.join(c['script'])}; observed: {' | '.join(o)}",
+                    {"framework": fw, "script": c["script"], "direct": {k: c[k] for k in c if k not in ("script",)}}))
+            res.count("direct:" + c["key"] + (":violated" if bad else ":holds"))
+    return hit
+
+
+def replay_direct(ctx):
+    """the direct expectation stored in a replay file (if any) -> list of cases"""
+    rp = json.loads(Path(ctx.replay_path).read_text())
+    r = rp.get("replay", rp)
+    if isinstance(r.get("direct"), dict) and "script" in r:
+        return [dict(r["direct"], script=r["script"])]
+    return []
